@@ -136,6 +136,9 @@ func C17() int {
 			}
 		}
 		cases = append(cases, cse{n, -2, "cluster-status-500"}, cse{n, -2, "cluster-reset"}, cse{n, -2, "cluster-garbage-json"})
+		// the cluster name is a name, also when it holds a comma: "<existing cluster>,<no such cluster>" is one name
+		// (of no cluster); whatever is done with it, nothing stays behind
+		cases = append(cases, cse{n, -3, "cluster-name-with-comma"})
 	}
 	c.Set("cases", len(cases))
 	build := func(ci int, cs cse) (atlasfake.Config, [][]byte, []string) {
@@ -168,7 +171,7 @@ func C17() int {
 			recs, crashed, res, aerr := s.Agent([]sut.AgentCmd{
 				{"op": "tmpdir_spell", "kind": c17TmpSpellings[(ci/2)%len(c17TmpSpellings)]},
 				{"op": "tmpdir_list"},
-				{"op": "atlas_download", "n": 1, "base_url": srv.URL(), "pub": atlasPub, "priv": atlasPriv, "project": cfg.Project, "cluster": cfg.Cluster, "start": c17Window(ci)[0], "end": c17Window(ci)[1]},
+				{"op": "atlas_download", "n": 1, "base_url": srv.URL(), "pub": atlasPub, "priv": atlasPriv, "project": cfg.Project, "cluster": c17ClusterArg(cs, cfg), "start": c17Window(ci)[0], "end": c17Window(ci)[1]},
 			}, nil, 3*time.Minute)
 			nreq := len(srv.Log())
 			srv.Close()
@@ -227,7 +230,7 @@ func C17() int {
 		spell := c17TmpSpellings[ci%len(c17TmpSpellings)]
 		env = append(env, "TMPDIR="+c17SpellTmp(dir, spell))
 		c.Count("cli_tmpdir_spelling:"+spell, 1)
-		cliArgs := []string{"redact", "--atlasProjectId", cfg.Project, "--atlasClusterName", cfg.Cluster, "-o", outp}
+		cliArgs := []string{"redact", "--atlasProjectId", cfg.Project, "--atlasClusterName", c17ClusterArg(cs, cfg), "-o", outp}
 		if w := c17Window(ci / 2); ci%2 == 1 {
 			cliArgs = append(cliArgs, fmt.Sprintf("--atlasLogStartDate=%d", w[0]), fmt.Sprintf("--atlasLogEndDate=%d", w[1]))
 		}
@@ -299,4 +302,13 @@ func c17SpellTmp(dir, kind string) string {
 		return l
 	}
 	return tmp
+}
+
+// c17ClusterArg is the cluster name handed to the tool: the configured cluster, or for the comma case
+// that name followed by ",<a cluster that does not exist>".
+func c17ClusterArg(cs c17Case, cfg atlasfake.Config) string {
+	if cs.fault == "cluster-name-with-comma" {
+		return cfg.Cluster + ",nosuchcluster" + cfg.Cluster[len(cfg.Cluster)-1:]
+	}
+	return cfg.Cluster
 }
